@@ -171,6 +171,96 @@ class Decision(object):
                 raise Undecidable(norm_stmt(st)[:60])
 
 
+def _numeric_names(fi):
+    """names of the function used as numbers: ordered comparison, arithmetic, slice bound, stored as / passed for a length"""
+    out = set()
+    for n in walk_no_nested(fi.node):
+        if isinstance(n, ast.Compare) and any(isinstance(o, (ast.Lt, ast.LtE, ast.Gt, ast.GtE)) for o in n.ops):
+            for e in [n.left] + n.comparators:
+                if isinstance(e, ast.Name):
+                    out.add(e.id)
+        elif isinstance(n, ast.BinOp) and isinstance(n.op, (ast.Add, ast.Sub, ast.Mult, ast.Div)):
+            for e in (n.left, n.right):
+                if isinstance(e, ast.Name):
+                    out.add(e.id)
+        elif isinstance(n, ast.Slice):
+            for e in (n.lower, n.upper):
+                if isinstance(e, ast.Name):
+                    out.add(e.id)
+        elif isinstance(n, ast.Assign) and isinstance(n.targets[0], ast.Attribute) and n.targets[0].attr in ("length", "edge_length") and isinstance(n.value, ast.Name):
+            out.add(n.value.id)
+        elif isinstance(n, ast.keyword) and n.arg in ("edge_length", "length", "period", "tree_offset", "collection_offset") and isinstance(n.value, ast.Name):
+            out.add(n.value.id)
+    return out
+
+
+def numeric_truthiness_rule(index, rep, rid, modules, exempt=None):
+    """A value that is used as a number (a length, an offset, a period, a count) and may legitimately be 0 is
+    tested against None, never by truthiness: `if x:` / `not x` treats 0 like 'not given'."""
+    exempt = exempt or {}
+    n = 0
+    for m in modules:
+        for fi in index.functions_in_module(m):
+            nn = _numeric_names(fi)
+            if not nn:
+                continue
+            cfg = None
+            for x in nn:
+                pass
+            cfg = cfg_of(fi)
+            for t in cfg.nodes:
+                if t.kind == "test" and isinstance(t.ast, ast.Name) and t.ast.id in nn:
+                    key = "%s:%s" % (fi.qualname, t.ast.id)
+                    n += 1
+                    if key in exempt:
+                        rep.ob(rid, fn_where(fi, t.stmt), "%s: truthiness of `%s` - exempt: %s" % (fi.name, t.ast.id, exempt[key]), True, nontrivial=False)
+                        continue
+                    rep.check(False, rid, fi.qualname, "numeric value `%s` tested by truthiness" % t.ast.id, fn_where(fi, t.stmt), "",
+                              "%s tests `%s` by truthiness (`%s`) although it uses it as a number: a value of 0 (a zero-length branch or period, offset 0, a zero edge length) is then handled as if nothing had been given" % (fi.qualname, t.ast.id, norm_stmt(t.stmt)[:60]))
+            n += len(nn)
+    return n
+
+
+def arg_wiring_rule(index, rep, rid, modules):
+    """An argument that carries the name of one of the callee's parameters goes into THAT parameter: a name passed
+    positionally into a slot with a different name, or `a=b` where b names another parameter of the callee, is
+    cross-wired unless the callee's own `b` receives `b` as well."""
+    n = 0
+    for m in modules:
+        for f in index.functions_in_module(m):
+            for c in calls_in(f.node, nested=True):
+                grade, cands = index.resolve_call(c, f)
+                cs = [x for x in cands if hasattr(x, "all_params")]
+                if not cs or not (grade in ("self", "static") or (grade == "name" and len(cs) == 1)):
+                    continue
+                callee = cs[0]
+                params = list(callee.params)
+                explicit_self = bool(params) and params[0] in ("self", "cls") and c.args and isinstance(c.args[0], ast.Name) and c.args[0].id in ("self", "cls") \
+                    and isinstance(c.func, ast.Attribute) and norm(c.func.value).split(".")[-1][:1].isupper()
+                if params and params[0] in ("self", "cls") and not explicit_self:
+                    params = params[1:]
+                allp = set(callee.all_params) - {"self", "cls"}
+                if any(isinstance(a, ast.Starred) for a in c.args):
+                    continue
+                given = {}
+                for i, a in enumerate(c.args):
+                    if i < len(params):
+                        given[params[i]] = a
+                for k in c.keywords:
+                    if k.arg:
+                        given[k.arg] = k.value
+                n += 1
+                for slot, a in sorted(given.items()):
+                    if isinstance(a, ast.Name) and a.id != slot and a.id in allp and slot in allp and a.id not in ("self", "cls"):
+                        own = given.get(a.id)
+                        if own is not None and isinstance(own, ast.Name) and own.id == a.id:
+                            continue        # the callee's own parameter of that name gets it too: deliberate
+                        rep.check(False, rid, f.qualname, "argument `%s` passed for parameter `%s` of %s" % (a.id, slot, callee.name), fn_where(f, c), "",
+                                  "%s passes `%s` for the parameter `%s` of %s (`%s`), while %s has a parameter called `%s` that %s: the two arguments are cross-wired, so each option takes effect where the other was meant"
+                                  % (f.qualname, a.id, slot, callee.qualname, norm(c)[:80], callee.name, a.id, "receives `%s`" % norm(own)[:30] if own is not None else "is left at its default"))
+    return n
+
+
 def save_restore_rule(rep, rid, fi):
     """`old = X.a; X.a = <new>; ...; X.a = old`: the temporary setting is undone on every normal path from where it was made."""
     cfg = cfg_of(fi)
@@ -557,3 +647,112 @@ def writes_rooted_at(fi, names, extra_mutators=()):
             if _root_name(n.value) in names:
                 out.append(n)
     return out
+
+
+# ------------------------------------------------------------------ rules every property applies to its own modules
+_DM = "dendropy.datamodel."
+_TMD = _DM + "treemodel."
+_IO = "dendropy.dataio."
+PROP_MODULES = {
+    "C01": [_TMD + "_bipartition", _TMD + "_tree", _DM + "taxonmodel"],
+    "C02": [_IO + "newickreader", _IO + "newickwriter", _IO + "nexusreader", _IO + "nexuswriter", _IO + "nexusprocessing", _IO + "nexmlreader", _IO + "nexmlwriter", _IO + "tokenizer"],
+    "C03": [_TMD + "_tree", _TMD + "_node", _TMD + "_edge"],
+    "C04": ["dendropy.calculate.treecompare", _TMD + "_tree", _TMD + "_bipartition"],
+    "C05": [_DM + "treecollectionmodel", "dendropy.calculate.treesum", "dendropy.calculate.statistics"],
+    "C06": [_DM + "treecollectionmodel", "dendropy.application.sumtrees"],
+    "C07": [_TMD + "_tree", _TMD + "_node", _TMD + "_edge", "dendropy.calculate.phylogeneticdistance"],
+    "C08": [_TMD + "_tree", _TMD + "_node"],
+    "C09": [_IO + "nexusreader", _IO + "nexuswriter", _IO + "nexmlreader", _IO + "nexmlwriter", _IO + "phylipreader", _IO + "phylipwriter", _IO + "fastareader", _IO + "fastawriter", _DM + "charmatrixmodel"],
+    "C10": [_DM + "taxonmodel", _IO + "nexusprocessing", "dendropy.utility.container"],
+    "C11": [_DM + "taxonmodel", _DM + "treecollectionmodel", _DM + "charmatrixmodel", _DM + "datasetmodel"],
+    "C12": [_DM + "basemodel", _DM + "taxonmodel", _TMD + "_tree", _TMD + "_node", _TMD + "_edge", _DM + "treecollectionmodel", _DM + "charmatrixmodel"],
+    "C13": [_DM + "basemodel", _IO + "ioservice", _IO + "newickreader", _IO + "newickyielder", _IO + "nexusreader", _IO + "nexusyielder", _DM + "treecollectionmodel"],
+    "C14": ["dendropy.calculate.phylogeneticdistance", "dendropy.calculate.treemeasure"],
+    "C15": [_TMD + "_tree", _TMD + "_node"],
+    "C16": ["dendropy.model.parsimony", _DM + "charstatemodel"],
+    "C17": [_TMD + "_tree", "dendropy.calculate.treemeasure"],
+    "C18": ["dendropy.model.birthdeath", "dendropy.model.coalescent", "dendropy.simulate.treesim", "dendropy.calculate.probability"],
+    "C19": [_DM + "charmatrixmodel"],
+    "C20": [_IO + "tokenizer", _IO + "nexusprocessing", _IO + "newickreader", _IO + "nexusreader", _IO + "phylipreader", _IO + "fastareader", _IO + "nexmlreader", _IO + "xmlprocessing"],
+}
+
+
+def ignored_item_rule(index, rep, rid, modules):
+    """An inner loop that walks a collection derived from the outer loop's item but never uses its own item, while its body
+    does use the OUTER item, repeats the same action once per inner element: the inner item was meant (wrong one of two
+    similar variables)."""
+    n = 0
+    for m in modules:
+        for f in index.functions_in_module(m):
+            for l1 in ast.walk(f.node):
+                if not isinstance(l1, ast.For):
+                    continue
+                t1 = {t.id for t in ast.walk(l1.target) if isinstance(t, ast.Name)}
+                for l2 in ast.walk(l1):
+                    if l2 is l1 or not isinstance(l2, ast.For):
+                        continue
+                    n += 1
+                    t2 = [t.id for t in ast.walk(l2.target) if isinstance(t, ast.Name)]
+                    used = {x.id for st in l2.body for x in ast.walk(st) if isinstance(x, ast.Name) and isinstance(x.ctx, ast.Load)}
+                    iter_names = {x.id for x in ast.walk(l2.iter) if isinstance(x, ast.Name)}
+                    if t2 and all(t not in used and not t.startswith("_") for t in t2) and (used & t1) and (iter_names & t1):
+                        rep.check(False, rid, f.qualname, "inner loop ignores its item `%s` and uses the outer `%s`" % (", ".join(t2), ", ".join(sorted(used & t1))), fn_where(f, l2), "",
+                                  "%s: the loop `for %s in %s` never uses `%s`; its body works on the outer loop's `%s` instead - every element of the inner collection is replaced by the outer item (e.g. a multi-state member is entered as ONE state instead of its fundamental states), so the wrong one of two similar variables is used" % (f.qualname, norm(l2.target), norm(l2.iter)[:50], ", ".join(t2), ", ".join(sorted(used & t1))))
+    return n
+
+
+def guard_object_rule(index, rep, rid, modules):
+    """`if X.a is None: v = <default> else: v = Y.a` - the None test and the read it protects are on the same object."""
+    n = 0
+    for m in modules:
+        for f in index.functions_in_module(m):
+            for iff in walk_no_nested(f.node):
+                if not isinstance(iff, ast.If):
+                    continue
+                t, tb, fb = pos_if(iff)
+                cp = compare_parts(t)
+                if not (cp and cp[1] in ("Is", "IsNot") and is_none(cp[2]) and isinstance(cp[0], ast.Attribute)):
+                    continue
+                guarded = cp[0]
+                root = guarded
+                while isinstance(root, ast.Attribute):
+                    root = root.value
+                if not isinstance(root, ast.Name) or root.id == "self":
+                    continue
+                notnone_branch = fb if cp[1] == "Is" else tb
+                last = guarded.attr
+                reads = [a for st in notnone_branch for a in ast.walk(st) if isinstance(a, ast.Attribute) and a.attr in (last, last.replace("edge_length", "length")) and isinstance(a.ctx, ast.Load)]
+                if not reads:
+                    continue
+                n += 1
+                roots = set()
+                for a in reads:
+                    r = a
+                    while isinstance(r, ast.Attribute):
+                        r = r.value
+                    if isinstance(r, ast.Name):
+                        roots.add(r.id)
+                branch_names = set()
+                for st in notnone_branch:
+                    branch_names |= names_in(st)
+                rep.check(root.id in roots or not roots or root.id in branch_names, rid, f.qualname, "None test on `%s` guards a read of `%s`" % (norm(guarded), ", ".join(norm(a) for a in reads)[:60]), fn_where(f, iff),
+                          "%s: `%s` guards reads on the same object" % (f.name, norm(t)[:50]),
+                          "%s tests `%s` but the branch it protects reads `%s`: the test is on a different object from the one whose value is used (the wrong one of two similar variables), so a missing value on the object actually read goes unnoticed (TypeError later, or a length silently dropped) while a missing value on the tested one discards a perfectly good value" % (f.qualname, norm(t)[:60], ", ".join(sorted(set(norm(a) for a in reads)))[:80]))
+    return n
+
+
+def generic_rules(prop, index, rep):
+    """rules of the same shape for every property, applied to the modules the property is anchored in"""
+    mods = [m for m in PROP_MODULES.get(prop, []) if m in index.modules or index.module(m)]
+    rid = "R%s.W" % prop[1:]
+    rep.rule(rid, "argument wiring in the property's modules: an argument named like one of the callee's parameters is passed for that parameter (no swapped positional arguments, no `a=b, b=a` keyword crossings)")
+    with rep.section(rid):
+        nw = arg_wiring_rule(index, rep, rid, mods)
+        rep.ob(rid, "src/dendropy", "%d resolved calls in the property's modules examined" % nw, True)
+        rep.floor(rid, "resolved calls in the property's modules", 50, nw)
+    rid2 = "R%s.V" % prop[1:]
+    rep.rule(rid2, "right variable in nested loops: an inner loop over a collection derived from the outer item uses its own item")
+    with rep.section(rid2):
+        nl = ignored_item_rule(index, rep, rid2, mods)
+        ng = guard_object_rule(index, rep, rid2, mods)
+        rep.ob(rid2, "src/dendropy", "%d nested loops and %d None-guards in the property's modules examined" % (nl, ng), True, nontrivial=nl + ng > 0)
